@@ -23,6 +23,7 @@ META = {
                   "properties (fade_time, primary_n, ...) are only required not to raise on clean frames.",
     "explanation": "symbolic execution of Response.__init__/value/status/__getattr__/__str__ of every "
                    "reachable response class with a symbolic answer byte; bitmap loops fork per bit",
+    "bounds_note": "constructor arguments: 19 non-frame objects incl. every falsy one (0, False, '', b'', [], {}, (), 0.0)",
     "bounds": ["all response classes reachable from Command._commands plus the base classes",
                "answer byte 0..255 symbolic", "outcomes: none / clean / framing error",
                "non-frame constructor arguments: a concrete list of 9 objects",
